@@ -125,7 +125,8 @@ def session_script(r, conformant, force_lower=False, burst=False):
                 add(f)
         if last and burst:
             script.append(("barrier",))
-        add(gens.EOT)
+        # some instruments terminate every unit with CR LF, also the EOT
+        add(gens.EOT + b"\r\n" if r.random() < 0.15 and not burst else gens.EOT)
 
     if force_lower or burst:
         segs = ["complete"]
@@ -247,7 +248,7 @@ def same_multiset(files, expected):
     return not files
 
 
-def one_run(r, fmt, ctx, stream, burst=False):
+def one_run(r, fmt, ctx, stream, burst=False, _retry=0):
     tmp = tempfile.mkdtemp(prefix="astm-c14-")
     outdir = os.path.join(tmp, "out")
     os.makedirs(outdir)
@@ -278,6 +279,7 @@ def one_run(r, fmt, ctx, stream, burst=False):
                 break
             time.sleep(0.05)
         time.sleep(0.15)
+        died = proc.poll()
     finally:
         proc.terminate()
         try:
@@ -289,6 +291,24 @@ def one_run(r, fmt, ctx, stream, burst=False):
         with open(os.path.join(outdir, fn), "rb") as fh:
             files.append(fh.read())
     kinds = [sc[2] for sc in scripts]
+    # a client that did not get through its script in time (thread still running, a reply that did not arrive within
+    # 10 s, a socket error) was not served as scripted - the machine is overloaded or the server is gone; what was
+    # acknowledged is then not what the scripts say, so the run decides nothing (counted, not judged; the in-process
+    # stream plays the same kind of scenario on a virtual clock)
+    stalled = [i for i, (t, lg) in enumerate(zip(threads, logs))
+               if t.is_alive() or any(x == b"<timeout>" or x.startswith(b"<error") for x in lg)]
+    if died is not None:
+        stream.case({"format": fmt, "server_exit": died})
+        stream.fail({"format": fmt, "server_exit": died, "clients": n_clients},
+                    "the server process ended by itself (exit %r) while instruments were connected" % died, "server-runs/server-exit")
+        shutil.rmtree(tmp, ignore_errors=True)
+        return
+    if stalled:
+        stream.count("inconclusive-slow-run")
+        shutil.rmtree(tmp, ignore_errors=True)
+        if _retry < 1:
+            return one_run(r, fmt, ctx, stream, burst=burst, _retry=_retry + 1)
+        return
     case = {"format": fmt, "clients": [[gens.ev_hex(e) for e in sc[1]] for sc in scripts], "kinds": kinds,
             "files": len(files)}
     incomplete = any(x in k for k in kinds for x in ("abandoned", "unfinished-run", "keepalive"))
